@@ -46,8 +46,8 @@ Definition is_attr_key (k : str) : bool :=
 Definition attr_text (v : value) : option str :=
   match v with
   | VStr x => Some (esc x)
-  | VBool _ | VInt _ | VI64 _ | VU64 _ | VFlt _ | VJNum _ => Some (fmt_v v)
-  | _ => None
+  | VBool _ | VInt _ | VI64 _ | VFlt _ | VJNum _ => Some (fmt_v v)
+  | _ => None                                        (* uint64 is not among the types of the attribute switch: "invalid attribute value" *)
   end.
 Fixpoint attrs_of (m : entries) : res (list (str * str)) :=
   match m with
@@ -109,7 +109,10 @@ Fixpoint enc (value : value) (key : str) {struct value} : res (list item) :=
       | [] => Ok (close_or_empty key [])
       | e => Ok [IOpen key []; IText e; IClose key]
       end
-  | _ => Ok [IOpen key []; IText (fmt_v value); IClose key]
+  | _ => match fmt_v value with
+         | [] => Ok (close_or_empty key [])          (* an empty json.Number: an empty element (after /repo 9f7c997) *)
+         | x => Ok [IOpen key []; IText x; IClose key]
+         end
   end.
 
 Definition default_root : str := s "doc".
